@@ -417,6 +417,10 @@ func runParseCase(c *Ctx, expr string, label string) parseOut {
 			return o
 		}
 	}
+	if o.code == "<empty-code>" || o.code == "<not-an-application-error>" {
+		c.fail(Failure{Kind: "oracle", Op: "expr " + strRunes(expr), Impl: impl, Note: fmt.Sprintf("%q was rejected, but the error carries no error code (%s)", expr, o.code)})
+		return o
+	}
 	if o.status == "" {
 		// nothing of the text may be lost on the way to the parser: the tokens of the text, nothing skipped, spell the text
 		if e := strings.Trim(expr, " \t\r\n"); e != "" {
